@@ -21,6 +21,24 @@ impl<'a> Machine<'a> {
         }
     }
 
+    /// The statement (or the line of a block statement: ELSEIF, CASE, LOOP WHILE / UNTIL) an error raised by the
+    /// operation at `pc` belongs to.
+    fn error_stmt_id(&self, px: usize, pc: usize) -> Id {
+        match &self.procs[px].code[pc.min(self.procs[px].code.len() - 1)] {
+            Op::JmpF(tag, _) | Op::JmpT(tag, _) => {
+                let (sid, arm) = (tag / 64, tag % 64);
+                match self.stmts.get(&sid).map(|s| &s.k) {
+                    Some(K::If { .. }) if arm > 0 => crate::gast::aux_id(sid, arm),
+                    Some(K::Do(DoKind::WhileBottom | DoKind::UntilBottom, ..)) => crate::gast::aux_id(sid, 63),
+                    Some(_) => sid,
+                    None => self.stmt_id_at(px, pc),
+                }
+            }
+            Op::CaseTest(sid, i, _) => crate::gast::aux_id(*sid, *i as u32 + 1),
+            _ => self.stmt_id_at(px, pc),
+        }
+    }
+
     fn label_pc(&self, px: usize, l: &str) -> R<usize> {
         self.procs[px]
             .labels
@@ -419,7 +437,7 @@ impl<'a> Machine<'a> {
                     }
                     return Err(match stop {
                         Stop::Error { code, stmt, mut sites } => {
-                            sites.push(self.stmt_id_at(cur_px, pc));
+                            sites.push(self.error_stmt_id(cur_px, pc));
                             Stop::Error { code, stmt, sites }
                         }
                         other => other,
@@ -427,7 +445,7 @@ impl<'a> Machine<'a> {
                 }
                 Err(RErr::Inexact(m)) => return Err(Stop::Undecided(m)),
                 Err(RErr::Code(code)) => {
-                    let stmt = self.stmt_id_at(cur_px, pc);
+                    let stmt = self.error_stmt_id(cur_px, pc);
                     if self.in_handler.is_some() || self.handler == HMode::None {
                         return Err(Stop::Error { code, stmt, sites: vec![] });
                     }
